@@ -47,7 +47,10 @@ func handleFiles(req *Req) *Resp {
 	}
 	defer os.RemoveAll(dir)
 	for _, f := range nlist(req.Arg, "files") {
-		if e := os.WriteFile(filepath.Join(dir, nstr(f, "name")), nbytes(f, "bytes"), 0o644); e != nil {
+		if d := nstr(f, "d"); d != "" {
+			os.MkdirAll(filepath.Join(dir, d), 0o755)
+		}
+		if e := os.WriteFile(filepath.Join(dir, nstr(f, "d"), nstr(f, "name")), nbytes(f, "bytes"), 0o644); e != nil {
 			resp.Crash = "harness: " + e.Error()
 			return resp
 		}
@@ -63,12 +66,20 @@ func handleFiles(req *Req) *Resp {
 		resp.Out["panic"] = p + " @ " + st
 		return resp
 	}
-	entries, _ := os.ReadDir(dir)
 	var fsl []Node
-	for _, en := range entries {
-		b, _ := os.ReadFile(filepath.Join(dir, en.Name()))
-		fsl = append(fsl, Node{"name": en.Name(), "bytes": bytesJSON(b), "dir": en.IsDir()})
-	}
+	filepath.Walk(dir, func(p string, info os.FileInfo, err error) error {
+		if err != nil || info.IsDir() {
+			return nil
+		}
+		rel, _ := filepath.Rel(dir, p)
+		b, _ := os.ReadFile(p)
+		d := filepath.Dir(rel)
+		if d == "." {
+			d = ""
+		}
+		fsl = append(fsl, Node{"d": d, "name": filepath.Base(rel), "bytes": bytesJSON(b)})
+		return nil
+	})
 	resp.Out["fs"] = fsl
 	pm := projMatches(ms)
 	for i := range pm {
@@ -92,7 +103,7 @@ type fsExp struct {
 func fsMap(l []Node) map[string]string {
 	out := map[string]string{}
 	for _, f := range l {
-		out[nstr(f, "name")] = string(nbytes(f, "bytes"))
+		out[nstr(f, "d")+"/"+nstr(f, "name")] = string(nbytes(f, "bytes"))
 	}
 	return out
 }
